@@ -99,7 +99,7 @@ let run () =
   let cases = ref 0 and runs = ref 0 and pviol = ref 0 and nontrivial = ref 0 and fuelout = ref 0 and rej = ref 0 in
   let id = ref "" and pat = ref "" and flags = ref "" and ngroups = ref 0 and unicode = ref false in
   let re : regex option ref = ref None in
-  let jn = ref 0 and mism = ref 0 and kn = ref 0 and an = ref 0 in
+  let jn = ref 0 and mism = ref 0 and kn = ref 0 and an = ref 0 and altn = ref 0 in
   let fuel = nat_of_int_big 600 in
   (try while true do
     let line = input_line stdin in
@@ -110,7 +110,26 @@ let run () =
       (* S1 (atoms): ^ a1 ... ak $ - the flat Cat the parser builds against the models of the functions that build each
          atom (Parser::char_node, the dot, the class set evaluation) *)
       let rec flat r = (match r with RSeq (a, b) -> a :: flat b | x -> [x]) in
+      let atom_node a = (match a with
+        | RChar (c, ic) -> (match char_node ic !unicode c with Ok m -> Some m | _ -> None)
+        | RAny d -> Some (dot_node d)
+        | RVClass (e, ic) -> Some (class_node ic e)
+        | _ -> None) in
       (match !re, fst (parse_cnode toks) with
+       | Some (RAlt (_, _) as r), NCat [x; NGoal] ->
+         (* an alternation of terms of atoms: make_alt over make_cat *)
+         let rec alts r = (match r with RAlt (a, b) -> a :: alts b | y -> [y]) in
+         let term r = (match r with REmpty -> [] | y -> flat y) in
+         let tl = List.map term (alts r) in
+         let nodes = List.map (fun t -> List.map atom_node t) tl in
+         if List.for_all (List.for_all (fun o -> o <> None)) nodes then begin
+           incr altn;
+           let ns = List.map (fun t -> make_cat (List.map (fun o -> match o with Some m -> m | None -> NEmpty) t)) nodes in
+           let m = make_alt (nat_of_int (List.length ns + 1)) ns in
+           if m <> x then begin
+             incr mism;
+             Printf.printf "MISMATCH stage=S1-alt case=%s pat=%s flags=%s detail=model-of-make_alt/make_cat-differs\n" !id !pat !flags end
+         end
        | Some r, NCat [NCat body; NGoal] ->
          let rs = flat r in
          let n = List.length rs in
@@ -186,4 +205,4 @@ let run () =
     | [] -> ()
     | _ -> failwith ("bad line: " ^ line)
   done with End_of_file -> ());
-  Printf.printf "SUMMARY cases=%d runs=%d mismatches=%d nontrivial=%d propviol=%d inconclusive=%d rejected=%d classset_irs=%d negated_class_decisions=%d atom_irs=%d\n" !cases !runs !mism !nontrivial !pviol !fuelout !rej !jn !kn !an
+  Printf.printf "SUMMARY cases=%d runs=%d mismatches=%d nontrivial=%d propviol=%d inconclusive=%d rejected=%d classset_irs=%d negated_class_decisions=%d atom_irs=%d alternation_irs=%d\n" !cases !runs !mism !nontrivial !pviol !fuelout !rej !jn !kn !an !altn
